@@ -63,7 +63,7 @@ def run(ctx, report):
     for (ci, rel, b), d in zip(data_blobs, decoded):
         by_case.setdefault(ci, []).append((rel, d))
     meta_reqs = [(ci, rel, b) for ci, (case, path, blobs) in enumerate(work) for rel, b in blobs if rel.endswith("_metadata")]
-    meta_reps = ctx.driver.ask([f"file footer meta=1 bytes={hexs(b)}" for _, _, b in meta_reqs]) if (ctx.model_ok and meta_reqs) else []
+    meta_reps = ctx.driver.ask([f"file footer meta={1 if rel.endswith('/_metadata') or rel == '_metadata' else 2} bytes={hexs(b)}" for _, rel, b in meta_reqs]) if (ctx.model_ok and meta_reqs) else []
     for (ci, rel, b), rep in zip(meta_reqs, meta_reps):
         if not rep.startswith("ok"):
             report.violation({"check": "summary-file", **work[ci][0]["desc"], "file": rel, "what": f"{rel} is not a valid metadata file: {rep[4:200].replace('_', ' ')}",
